@@ -11,6 +11,12 @@ EAGAIN/EWOULDBLOCK/EINTR/ENOBUFS (nothing sent), raise EPIPE/ECONNRESET (connect
 A rare configuration (1 run in 40 in quick, 1 in 10 in thorough) models an OS with a very large send buffer ("however the OS accepts
 it"): one send()/write() call may accept a whole payload however large (NET.greedy for sockets, the same loop in the fd_write wrapper
 for File; the remote end drains meanwhile), and ONE payload of 1 MiB + {1, 4096, 300000} bytes is written among small ones.
+Two runs in five of the File endpoint use a File that is readable as well as writable (shape "file-rw": a real temporary regular file
+with drawn initial content, created under /var/tmp and unlinked before the run starts, handed to File as an 'r+b' file object; Select
+or Poll only - epoll refuses regular files).  File reads one `bufsize` block per loop iteration, so the read side reaches end-of-file
+at a drawn iteration: before the first write, between writes, while payloads are buffered, while a close is deferred, or never.  A
+File in a `+` mode stays open at EOF (circuits' own rule), so EOF is NOT a close request here: everything written before and after it
+is owed.  The kernel accepts every write to a regular file in full; partial writes and errnos come from the fault script only.
 
 Oracle (ground truth = the bytes the OS accepted, recorded by the interposer; clauses quote the statement):
   * "handed to the OS in order and each byte exactly once ... partial sends and transient refusals lose, repeat or reorder nothing":
@@ -29,6 +35,8 @@ Oracle (ground truth = the bytes the OS accepted, recorded by the interposer; cl
     again, so every send can cost one iteration in which the descriptor is reported not writable).
 A peer half-close that comes before any close event counts as the close request for the PRE/POST split (the endpoint may close itself
 on EOF: what is written afterwards may be dropped, what was written before is owed) but no close is demanded because of it.
+A stall (bound exceeded) in which the File made no write() call at all since its read side reported EOF with data or a close still
+pending gets its own key  C11/file/liveness/stalled-after-read-eof  (whichever of "not flushed" / "close not performed" it shows as).
 Keeping the writer registered after the buffer drained is not judged.  How often close() is called on the descriptor is not judged.
 """
 import errno
@@ -36,6 +44,7 @@ import fcntl
 import hashlib
 import io
 import os
+import tempfile
 
 from simcore import world, simnet
 from simcore.world import W
@@ -58,28 +67,34 @@ LEVEL_TEXT = ('seeded enumeration of send()/write() outcome scripts (accept k of
               'fault-free and fault-injecting configurations are accounted separately (cfg:fault-free / cfg:faults); sampling, not proof')
 LEVEL_NOTE = ('trusted: SimSocket.sim_sent / the fd_write wrapper as record of what the OS accepted, the kernel (AF_UNIX stream sockets, pipes), '
               'FIFO dispatch of equal-priority events (C02) for "written before the close request" = fired before it')
-RULE = ('each run = endpoint kind + poller + buffer sizes + payload/close/step/peer-read script + per-call fault script from one tape; non-trivial = '
+RULE = ('each run = endpoint kind (+ for File: write-only pipe or read-write regular file with drawn initial content) + poller + buffer sizes + '
+        'payload/close/step/peer-read script + per-call fault script from one tape; non-trivial = '
         'at least two non-empty payloads were written, bytes were accepted, and at least one of: partial send (real or injected), transient errno, '
         'fatal errno, close requested while data was unflushed; distinct = digest of the log of writes, send outcomes, reads, events and closes')
-STATE_MEASURE = '(endpoint kind, poller, outcome of a send call, unflushed payloads bucket at that call, close pending, injected-or-real)'
+STATE_MEASURE = '(endpoint kind incl. file-rw, poller, outcome of a send call, unflushed payloads bucket at that call, close pending, injected-or-real, read side of a File at EOF)'
 REAL = ['circuits.net.sockets.TCPServer/UNIXServer (write/close/_on_write/_write/_close)', 'circuits.net.sockets.TCPClient/UNIXClient (same, connect)',
-        'circuits.io.file.File on a real pipe', 'circuits.core.pollers.Select/Poll/EPoll over real select/poll/epoll', 'circuits.core.manager.Manager.tick',
+        'circuits.io.file.File on a real pipe (write-only) or on a real unlinked regular file opened r+b (read side reaches EOF during the run)',
+        'circuits.core.pollers.Select/Poll/EPoll over real select/poll/epoll', 'circuits.core.manager.Manager.tick',
         'kernel AF_UNIX stream sockets and pipes (real partial sends)']
 STUBBED = ['socket -> SimSocket interposer (AF_UNIX behind simulated addresses, fault script per send)', 'circuits.io.file.fd_write -> wrapper around os.write '
-           'with the same fault script', 'select module -> non-blocking shim', 'time -> virtual clock', 'remote ends are harness Peer objects / the read end of the pipe']
+           'with the same fault script', 'circuits.io.file.fd_read -> pass-through to os.read that notes the moment of EOF (reach probes only)', 'select module -> non-blocking shim', 'time -> virtual clock', 'remote ends are harness Peer objects / the read end of the pipe']
 ASSUMPTIONS = ['writes after the close request may be written or dropped (statement silent); they must not displace or repeat earlier data',
                '"written before the close request" = write event fired before the close event on the same channel (FIFO dispatch)',
                'EOF on the read side (peer shutdown(SHUT_WR)) is treated like a close request: data written before it must still be delivered, data written '
                'after it may be dropped; the peer never closes or resets the connection fully before the end of a run',
                'how many times close() is called on the descriptor is not judged (idempotent on Python sockets/files)',
                'an endpoint that keeps its writer registered after draining is not flagged',
-               'ENOBUFS counts as a transient refusal for File as well (the statement lists it for every endpoint)']
+               'ENOBUFS counts as a transient refusal for File as well (the statement lists it for every endpoint)',
+               'end-of-file on the read side of a File opened in a + mode is not a close request (File itself keeps such a file open at EOF): data '
+               'written before and after it is owed; where in the file the bytes land (reads and writes share the file offset) is not judged']
 PROBES = ['cfg:faults', 'cfg:fault-free', 'kind:tcpserver', 'kind:unixserver', 'kind:tcpclient', 'kind:unixclient', 'kind:file',
           'poller:Select', 'poller:Poll', 'poller:EPoll', 'partial-send-real', 'fault:short_write', 'fault:transient_send_error',
           'fault:fatal_send_error', 'close-deferred', 'close-immediate', 'close-performed', 'write-after-close-request', 'write-after-closed',
           'payload-empty', 'payload-large', 'fatal-signalled', 'post-payload-written', 'flushed-in-full', 'repeated-close',
           'repeated-close-while-deferred', 'close-all-while-deferred', 'eof-while-close-deferred', 'eof-before-close', 'cfg:greedy-big',
-          'payload-over-1MiB', 'payload-over-1MiB-accepted-in-one-send', 'cfg:file-text-payloads']
+          'payload-over-1MiB', 'payload-over-1MiB-accepted-in-one-send', 'cfg:file-text-payloads', 'kind:file-rw', 'file-rw-read', 'file-rw-eof',
+          'file-rw-eof-while-unflushed', 'file-rw-eof-while-close-deferred', 'file-rw-eof-before-first-write', 'file-rw-write-after-eof',
+          'file-rw-no-eof']
 TIERS = {
     'quick': dict(runs=50000, wall=26, chunk=25, cfg=dict(max_ops=16, large=(60_000, 300_000), max_total=450_000, large_w=1, big_den=40)),
     'thorough': dict(runs=200000, wall=600, chunk=40, cfg=dict(max_ops=40, large=(300_000, 2_500_000), max_total=6_000_000, large_w=2, big_den=10)),
@@ -87,6 +102,7 @@ TIERS = {
 
 K_CLIENT = 'C11/client/transient-errno/payload-lost'
 K_FILE = 'C11/file/transient-errno/payload-lost'
+K_EOF = 'C11/file/liveness/stalled-after-read-eof'
 KINDS = ['tcpserver', 'unixserver', 'tcpclient', 'unixclient', 'file']
 GROUP = dict(tcpserver='server', unixserver='server', tcpclient='client', unixclient='client', file='file')
 POLLERS = [('Select', Select), ('Poll', Poll), ('EPoll', EPoll)]
@@ -99,7 +115,7 @@ MIB = 1 << 20
 if not hasattr(FMOD, 'fd_write'):
     raise RuntimeError('C11: circuits.io.file no longer has the module-level name fd_write (seam for File writes)')
 _real_fd_write = os.write
-_FILE = dict(hook=None)
+_FILE = dict(hook=None, rhook=None)
 
 
 def _c11_fd_write(fd, data):
@@ -108,6 +124,22 @@ def _c11_fd_write(fd, data):
 
 
 FMOD.fd_write = _c11_fd_write
+
+# same for reads (`fd_read` = os.read): a pass-through that only tells the harness the moment the read side of a File sees end-of-file
+if not hasattr(FMOD, 'fd_read'):
+    raise RuntimeError('C11: circuits.io.file no longer has the module-level name fd_read (observation point for EOF of a File)')
+_real_fd_read = os.read
+
+
+def _c11_fd_read(fd, n):
+    data = _real_fd_read(fd, n)
+    h = _FILE['rhook']
+    if h is not None and not data:
+        h()
+    return data
+
+
+FMOD.fd_read = _c11_fd_read
 
 _PAT = [b'']
 
@@ -201,7 +233,7 @@ def run_one(ctx):
     try:
         _run(ctx)
     finally:
-        _FILE['hook'] = None
+        _FILE['hook'] = _FILE['rhook'] = None
         NET.close_all()
 
 
@@ -218,7 +250,10 @@ def _run(ctx):
     ch, cfg = ctx.ch, ctx.cfg
     kind = ch.choice(KINDS, 'endpoint')
     grp = GROUP[kind]
-    pname, pcls = ch.choice(POLLERS, 'poller')
+    # File only: two runs in five on a regular file opened for reading AND writing (epoll refuses regular files: Select / Poll)
+    rw = grp == 'file' and ch.chance(2, 5, 'file-rw')
+    pname, pcls = ch.choice(POLLERS[:2] if rw else POLLERS, 'poller')
+    skind = 'file-rw' if rw else kind
     sndbuf = ch.choice([4608, None, 16384], 'sndbuf')
     bufsize = ch.choice([4096, 1, 64, 8192], 'bufsize')
     faulty = ch.chance(1, 2, 'faulty')
@@ -231,6 +266,8 @@ def _run(ctx):
     rate = ch.choice([3, 2, 4, 6], 'fault-rate') if kinds else 1
     ctx.stat('cfg:faults' if kinds else 'cfg:fault-free')
     ctx.stat('kind:' + kind)
+    if rw:
+        ctx.stat('kind:file-rw')
     ctx.stat('poller:' + pname)
     ctx.log('cfg', kind, pname, sndbuf or 0, bufsize, ','.join(k for k, _ in kinds), rate)
     ctx.trace('endpoint=%s poller=%s sndbuf=%s bufsize=%d faults=%s rate=1/%d' % (kind, pname, sndbuf, bufsize, [k for k, _ in kinds] or 'none', rate))
@@ -259,6 +296,7 @@ def _run(ctx):
     st = dict(total=0, pre_total=0, close_req=False, post=[], states={(-1, 0)}, acc=0, call=None, last='none', ncalls=0,
               partials=0, refusals=0, fatal=None, signalled=False, closed_at=None, after_close=0, viol=False, dead=False,
               sock=None, connected=False, deferred=False, faults_seen=0, late=0, close_dem=False, ncloses=0, eof=False, disp=0, call_disp=-1, big=st_big, nwrites=0,
+              rd_eof=False, eof_pending_calls=None, full_calls=0,
               text=(TXT, TOFF) if text else None, tchar=0)
 
     def fail(key, detail):
@@ -392,7 +430,7 @@ def _run(ctx):
         st['faults_seen'] += 1
         ctx.log('send-err', c['n'], name)
         ctx.trace('  send(%d bytes) -> %s injected (nothing accepted)%s' % (c['n'], name, '; connection is dead from now on' if fatal else ''))
-        ctx.state((kind, pname, name, min(depth(), 3), st['close_req']))
+        ctx.state((skind, pname, name, min(depth(), 3), st['close_req'], st['rd_eof']))
         if fatal and st['fatal'] is None:
             st['fatal'] = name
             st['dead'] = True
@@ -409,6 +447,7 @@ def _run(ctx):
                 ctx.stat('partial-send-real')
         else:
             outcome, how = 'full-send', ''
+            st['full_calls'] += 1       # one payload (or the rest of one) left the endpoint's buffer, empty ones included
         if len(g) == n and n > MIB:
             ctx.stat('payload-over-1MiB-accepted-in-one-send')
         if len(g) >= MIB:
@@ -418,7 +457,7 @@ def _run(ctx):
             st['last'] = outcome
         ctx.log('send', n, len(g))
         ctx.trace('  send(%d bytes) -> %d accepted%s [stream offset %d]' % (n, len(g), ' (%s partial send)' % how if how else '', st['acc']))
-        ctx.state((kind, pname, outcome + how, min(depth(), 3), st['close_req']))
+        ctx.state((skind, pname, outcome + how, min(depth(), 3), st['close_req'], st['rd_eof']))
         if g:
             new = advance(g)
             if not new:
@@ -566,12 +605,27 @@ def _run(ctx):
         half_close = peer.shutdown_wr
         peer_read = lambda limit: len(peer.recv(limit))
     else:
-        r, w = os.pipe()
-        NET.fds.append(r)
-        os.set_blocking(r, False)
-        if sndbuf:
-            fcntl.fcntl(w, F_SETPIPE_SZ, 4096 if sndbuf == 4608 else 16384)
-        f = RecFile(w, 'wb', closefd=True)
+        if rw:
+            # a File that is readable too: a real regular file with `nblocks` blocks of initial content (File reads one block of `bufsize`
+            # bytes per loop iteration, then EOF), unlinked at once - no name, inode or time of it enters the log.  When the listed finding
+            # is avoided the file is empty, so the read side is at EOF before the first write (nothing is pending then).
+            nblocks = 0 if K_EOF in ctx.avoid else ch.choice([1, 0, 2, 3, 6, 12, 400], 'file-rw-blocks')
+            isize = max(0, nblocks * bufsize - ch.draw(2, 'file-rw-short-last-block'))
+            w, path = tempfile.mkstemp(prefix='c11-', dir='/var/tmp')
+            os.unlink(path)
+            os.ftruncate(w, isize)      # content: zero bytes (what is read is not judged, only how much)
+            r = None
+            ctx.log('file-rw', isize)
+            ctx.trace('File on a regular file opened r+b with %d bytes of content: its read side reports EOF after %d read(s) of %d bytes' % (
+                isize, -(-isize // bufsize), bufsize))
+            f = RecFile(w, 'r+b', closefd=True)
+        else:
+            r, w = os.pipe()
+            NET.fds.append(r)
+            os.set_blocking(r, False)
+            if sndbuf:
+                fcntl.fcntl(w, F_SETPIPE_SZ, 4096 if sndbuf == 4608 else 16384)
+            f = RecFile(w, 'wb', closefd=True)
         NET.track(f)
         f.on_close = on_close
         st['file'] = f
@@ -589,6 +643,43 @@ def _run(ctx):
 
             def closed(self):
                 ev('closed')
+
+            def read(self, data):
+                ctx.stat('file-rw-read')
+                ev('read', len(data))
+
+            def eof(self):
+                # end-of-file on the read side; the File stays open (+ mode).  Remember whether anything was still owed at that moment
+                # and how many write() calls had been made (only used to word the finding key of a later stall)
+                owed = max(st['pre_total'] - st['acc'], 0)
+                queued = max(len(pays) - st['full_calls'], 0)       # payloads (empty ones too) not yet handed over in full
+                close_pending = st['close_dem'] and st['closed_at'] is None
+                st['rd_eof'] = True
+                if st['closed_at'] is None and st['fatal'] is None and (owed or queued or close_pending):
+                    st['eof_pending_calls'] = st['ncalls']
+                    st['eof_what'] = '%d payload(s) with %d byte(s) not yet handed to the OS%s' % (queued, owed, ', close deferred' if close_pending else '')
+                ev('eof', owed, queued, int(close_pending))
+
+            def write(self, data):      # a write event reached the File (observer next to File's own handler): bytes it has been given
+                rwst['given'] += len(data if isinstance(data, bytes) else data.encode('utf-8'))
+
+            def close(self):
+                rwst['close'] = True
+
+        rwst = dict(given=0, close=False)
+
+        def at_read_eof():
+            # reach probes, at the very moment os.read returned b'' to the File: what did the File hold then?
+            ctx.stat('file-rw-eof')
+            if st['closed_at'] is None and st['fatal'] is None:
+                if rwst['given'] > st['acc']:
+                    ctx.stat('file-rw-eof-while-unflushed')
+                    if rwst['close']:
+                        ctx.stat('file-rw-eof-while-close-deferred')
+                if not rwst['given']:
+                    ctx.stat('file-rw-eof-before-first-write')
+        if rw:
+            _FILE['rhook'] = at_read_eof
 
         def file_write(fd, data):
             if st['dead']:
@@ -622,7 +713,13 @@ def _run(ctx):
         _FILE['hook'] = file_write
         File(f, bufsize=bufsize).register(m)
         Obs().register(m)
-        settle([m])
+        if rw:
+            for _ in range(30):     # not settle(): a readable regular file is never quiet before EOF, and when EOF comes is part of the script
+                if st['connected']:
+                    break
+                step(m)
+        else:
+            settle([m])
         if not st['connected']:
             raise HarnessLimit('C11: File did not open')
         chan = 'file'
@@ -632,7 +729,7 @@ def _run(ctx):
 
         def peer_read(limit):
             n = 0
-            while n < limit:
+            while r is not None and n < limit:
                 try:
                     d = os.read(r, min(65536, limit - n))
                 except BlockingIOError:
@@ -650,6 +747,8 @@ def _run(ctx):
         NET.oplog = None            # NET.close_all() closing the descriptors is not part of the history
         if grp == 'file':
             st['file'].on_close = None
+    if rw and not st['rd_eof']:
+        ctx.stat('file-rw-no-eof')
     ctx.sim_time = W.now - T0
     if not st['viol'] and st['fatal'] is None and grp != 'file' and st['closed_at'] is not None:
         # conformance of the stand-ins: what the peer received is what the interposer says the OS accepted
@@ -721,6 +820,8 @@ def _drive(ctx, st, pays, PAT, m, kind, grp, fire_write, fire_close, half_close,
             ctx.stat('payload-large')
         if size:
             st['nonempty'] = st.get('nonempty', 0) + 1
+        if st['rd_eof'] and not gone():
+            ctx.stat('file-rw-write-after-eof')
         ctx.log('write', len(pays) - 1, off, size, phase)
         ctx.trace('write #%d: %d bytes (stream offset %d)%s' % (len(pays) - 1, size, off, ' [after the close request]' if phase == 'post' else ''))
         fire_write(PAT[off:off + size] if payload is None else payload)
@@ -824,7 +925,11 @@ def _drive(ctx, st, pays, PAT, m, kind, grp, fire_write, fire_close, half_close,
             finish_real_error('?')
             where = 'not flushed after %d loop iterations with a draining peer and no faults (bound: 2 x (%d payloads + %d partial sends) + 10)' % (
                 it, len(pays), st['partials'] + st['refusals'] - base)
-            if st['fatal'] is not None:
+            if st['fatal'] is None and st['closed_at'] is None and st['eof_pending_calls'] == st['ncalls']:
+                # the read side of a File reported EOF while data / a close was pending and the File has not made a single write() call since
+                fail(K_EOF, 'the read side of the File reached end-of-file (the File stays open: + mode) with %s; since then the File made no write() '
+                     'call at all%s: %s' % (st['eof_what'], '' if not st['close_dem'] else ' and the requested close did not happen', where))
+            elif st['fatal'] is not None:
                 # "a fatal send error is always signalled by an error or disconnect event"
                 fail('C11/%s/fatal-errno/not-signalled' % grp, 'send raised %s but no error/disconnect/disconnected/closed event within %d iterations' % (st['fatal'], it))
             elif not pre_done():
